@@ -185,6 +185,84 @@ def run(F, tier, res):
             res.violate('P3', key, 'an unsigned subtraction on the input path is not guarded by a comparison of its operands (overflow checks are on in debug builds; '
                         'in release it wraps to a huge value that is then used as a width / index)', where=s['where'])
     res.rule('C03.P3', n3, 20, 'unsigned subtractions on the input path: discharged by pattern, hand-proved table, or reported', discharged=ok3, samples=samples[:12])
+    # ---------- P5: str slicing with a computed bound
+    POS = ('::find', '::rfind', '::start', '::end', '::len', '::min', '::floor_char_boundary', '::ceil_char_boundary', '::char_indices', '::match_indices',
+           '::position', '::saturating_sub', '::next', '::width', '::unwrap_or', '::checked_sub', '::range', '::ansi_preserving_index', '::offset')
+    table5 = _load_table('c03_p5_handproved.json')
+    n5 = ok5 = 0
+    samples5 = []
+    for p in sorted(render):
+        ordn = 0
+        for i, c in F.calls(p):
+            r = callee_of(c)
+            full = callee_full(c)
+            if not (r.endswith('::index') and ('for str>' in r or 'String as std::ops::Index' in r) and 'Range' in full):
+                continue
+            ordn += 1
+            n5 += 1
+            key = 'fn=%s;slice#%d' % (p, ordn)
+            # the range aggregate's operands
+            bounds = []
+            for rr in F.trace(p, c['args'][1]):
+                pass
+            pl = c['args'][1].get('move') or c['args'][1].get('copy')
+            rng = None
+            for (dbb, kind, payload) in (F.local_defs(p).get(pl['l'], []) if pl and not pl['p'] else []):
+                if kind == 'assign' and payload[0] == 'agg':
+                    rng = payload
+            why = None
+            if rng is None:
+                why = None
+            else:
+                ops = rng[2]
+                allok = True
+                for o in ops:
+                    lits = F.operand_literals(p, o)
+                    roots = F.trace(p, o)
+                    if any(rr[0] == 'call' and rr[1].endswith(POS) for rr in roots) or any(rr[0] == 'call' and ('Match' in rr[1] or 'regex' in rr[1]) for rr in roots):
+                        continue       # a position produced by a search / match / length of a string
+                    if lits and all(v[0] == 'int' for v in lits) and not any(rr[0] in ('param', 'call') for rr in roots):
+                        # constant bound: must be under a prefix test (starts_with / strip_prefix / ends_with) or be 0
+                        if all(v[1] == 0 for v in lits):
+                            continue
+                        g = Ru.guarded_by(F, p, i, lambda rs: any(x[0] == 'call' and x[1].endswith(('::starts_with', '::ends_with', '::strip_prefix')) for x in rs))
+                        if g:
+                            continue
+                        allok = False
+                        continue
+                    # computed bound: dominated by a comparison with a len()
+                    dom_ok = False
+                    sig = _roots_sig(F, p, o)
+                    for (swb, op, arms, other) in Ru.switches(F, p):
+                        rs = F.trace(p, op)
+                        if not any(x[0] == 'binop' and x[1] in ('Gt', 'Ge', 'Lt', 'Le') for x in rs):
+                            continue
+                        if not any(x[0] == 'call' and x[1].endswith('::len') for x in rs):
+                            continue
+                        from .c20 import _find_binop_rvalue
+                        rv = _find_binop_rvalue(F, p, op)
+                        if rv is None:
+                            continue
+                        l, r_ = _roots_sig(F, p, rv[2]), _roots_sig(F, p, rv[3])
+                        if not (l & sig or r_ & sig):
+                            continue
+                        tt, ft = Ru.bool_edges(arms, other)
+                        if any(e is not None and (Ru.edge_dominates(F, p, swb, e, i) or e == i) for e in (tt, ft)):
+                            dom_ok = True
+                    if dom_ok:
+                        continue
+                    allok = False
+                if allok:
+                    why = 'bounds are search/match positions, lengths, guarded constants, or compared with len()'
+            if why:
+                ok5 += 1
+            elif key in table5:
+                ok5 += 1
+                samples5.append('%s: hand-proved: %s' % (key, table5[key]))
+            else:
+                res.violate('P5', key, 'a string is sliced at a computed position that is neither a search/match position nor compared with the string\'s length: '
+                            'an out-of-range (or non-boundary) index panics', where=F.span_of_call(c))
+    res.rule('C03.P5', n5, 30, 'str/String slicing sites with range bounds on the input path: discharged by pattern, hand-proved table, or reported', discharged=ok5, samples=samples5[:8])
     # ---------- P4
     from . import _e1common as E
     from .. import extract
